@@ -172,19 +172,20 @@ abbrev MonoF := All2 (fun (a b : FieldInfo × Meth) => a.1 = b.1 ∧ Mono a.2 b.
 theorem isOk_objSel_M {o : DOpts} {ci c} {ms : List (FieldInfo × Meth)} (hnf : NoFbod ms)
     (ha : (aliasesM ms).Nodup) (d : Py) (hw : d.wf = true) :
     (run (objSel o ci c ms) d).isOk
-      = dictOk c d (fun kvs => fieldsOkM ms kvs && noUnexpected o.additionalProperties (aliasesM ms) kvs) := by
+      = dictOk c d (fun kvs => fieldsOkM ms kvs && noUnexpected o.additionalProperties (aliasesM ms) kvs
+                                && depOk (infosM ms) kvs) := by
   unfold objSel
   simp only
   split
   · rename_i hcond
     simp only [Bool.and_eq_true, Bool.not_eq_true', beq_iff_eq] at hcond
-    obtain ⟨⟨⟨hc, htd⟩, _⟩, _⟩ := hcond
+    obtain ⟨⟨⟨hc, htd⟩, _⟩, hsimple⟩ := hcond
     rw [run]
     cases d <;> simp [onDict, dictOk, isOk_badType]
     case dict kvs =>
       rw [Py.wf, Bool.and_eq_true] at hw
       have hk : (keysOf kvs).Nodup := keysK_eq kvs ▸ nodup_of_distinctStrs hw.1
-      rw [isOk_finishSimple hnf hk ha, dictErrors_nil hc, htd]
+      rw [isOk_finishSimple hnf hk ha, dictErrors_nil hc, htd, depOk_of_noDeps (simpleOk_noDeps hsimple) kvs]
       simp
   · rw [run]
     cases d <;> simp [onDict, dictOk, isOk_badType]
@@ -200,6 +201,14 @@ theorem monoF_aliases {ms ms' : List (FieldInfo × Meth)} (h : MonoF ms ms') : a
     obtain ⟨f, m⟩ := a; obtain ⟨f', m'⟩ := b
     simp only at hab
     rw [aliasesM_cons, aliasesM_cons, ih, hab.1]
+
+theorem monoF_infos {ms ms' : List (FieldInfo × Meth)} (h : MonoF ms ms') : infosM ms' = infosM ms := by
+  induction h with
+  | nil => rfl
+  | @cons a b l1 l2 hab _ ih =>
+    obtain ⟨f, m⟩ := a; obtain ⟨f', m'⟩ := b
+    simp only at hab
+    rw [infosM, infosM, ih, hab.1]
 
 theorem monoF_nofbod {ms ms' : List (FieldInfo × Meth)} (h : MonoF ms ms') (hn : NoFbod ms) : NoFbod ms' := by
   induction h with
@@ -231,12 +240,12 @@ theorem mono_objSel {o : DOpts} {ci c} {ms ms' : List (FieldInfo × Meth)} (h : 
   intro d hw hd
   have ha' : (aliasesM ms').Nodup := (monoF_aliases h) ▸ ha
   rw [isOk_objSel_M hnf ha d hw] at hd
-  rw [isOk_objSel_M (monoF_nofbod h hnf) ha' d hw, monoF_aliases h]
+  rw [isOk_objSel_M (monoF_nofbod h hnf) ha' d hw, monoF_aliases h, monoF_infos h]
   cases d <;> try (cases hd)
   case dict kvs =>
     rw [Py.wf, Bool.and_eq_true] at hw
     simp only [dictOk, Bool.and_eq_true] at hd ⊢
-    exact ⟨hd.1, fieldsOkM_mono h kvs hw.2 hd.2.1, hd.2.2⟩
+    exact ⟨hd.1, ⟨fieldsOkM_mono h kvs hw.2 hd.2.1.1, hd.2.1.2⟩, hd.2.2⟩
 
 theorem compileF_infos (o : DOpts) (hf : o.fallBackOnDefault = false) : ∀ (fs : List (FieldInfo × Ty)), cfragF fs = true →
     aliasesM (compileF o fs) = aliasesOf fs ∧ NoFbod (compileF o fs)
